@@ -10,6 +10,11 @@ REPO = os.environ.get("AHRS_REPO", "/repo")
 sys.path.insert(0, REPO)
 os.environ.setdefault("AHRS_VERIF", "1")
 
+import warnings
+warnings.filterwarnings("ignore")
+import numpy as _np
+_np.seterr(all="ignore")
+
 from . import core, tlc  # noqa
 
 
